@@ -548,4 +548,32 @@ Proof.
   - apply iso_EBCM.
 Qed.
 End WithSolver.
+
+(* row 0 (what Extract/XIC.v extracts and the `ic` correspondence compares with the code) *)
+Definition val_eq (a b : val) : Prop :=
+  match a, b with VS x, VS y => x == y | VV x, VV y => veq x y | VM x, VM y => meq x y | _, _ => False end.
+Definition row0_eq (a b : list (sname * val)) : Prop := Forall2 (fun x y => fst x = fst y /\ val_eq (snd x) (snd y)) a b.
+Lemma row0_oeq o o' : oeq o o' -> row0_eq (row0 o) (row0 o').
+Proof.
+  intros H. unfold row0, row0_eq. induction H as [|[n1 s1] [n2 s2] o o' [E S] H IH]; cbn [map]; constructor; [|exact IH].
+  cbn [fst snd] in *. split; [exact E|]. destruct s1, s2; cbn in S |- *; try contradiction; apply S.
+Qed.
+Theorem iso_row0_entry e rq full : req row0_eq (row0_entry e g' (map_req phi rq) full) (row0_entry e g rq full).
+Proof.
+  unfold row0_entry. pose proof (iso_run_entry const_solver const_solver_proper e rq full) as H.
+  destruct (run_entry e g' _ full const_solver), (run_entry e g rq full const_solver); cbn [req rbind] in *; try contradiction;
+    [apply row0_oeq, H|exact H].
+Qed.
+(* the wrappers whose solver arguments are counts: identical outputs for EVERY solver (no assumption on it) *)
+Theorem iso_run_entry_eq e rq full sv : In e [eSISm; eSIRm; eSIShm; eSIRhm; eSISed; eSIRed] ->
+  run_entry e g' (map_req phi rq) full sv = run_entry e g rq full sv.
+Proof.
+  intros [<-|[<-|[<-|[<-|[<-|[<-|[]]]]]]]; cbn [run_entry].
+  - apply iso_SIS_homogeneous_meanfield.
+  - apply iso_SIR_homogeneous_meanfield.
+  - apply iso_SIS_heterogeneous_meanfield.
+  - apply iso_SIR_heterogeneous_meanfield.
+  - apply iso_SIS_effective_degree.
+  - apply iso_SIR_effective_degree.
+Qed.
 End Iso.
